@@ -413,10 +413,14 @@ impl Annotated<Schema> {
                         )
                     });
 
-                collect_type_parameters(type_parameters, &data_type.typed_parameters, args);
+                // Bindings of this data-type's parameters are local to it: a nested instance of
+                // the same generic type must not overwrite the ones of the enclosing instance.
+                let mut type_parameters = type_parameters.clone();
+
+                collect_type_parameters(&mut type_parameters, &data_type.typed_parameters, args);
 
                 let annotated = Schema::Data(
-                    Data::from_data_type(&data_type, modules, type_parameters, definitions)
+                    Data::from_data_type(&data_type, modules, &mut type_parameters, definitions)
                         .map_err(|e| e.backtrack(type_info))?,
                 );
 
